@@ -8,59 +8,59 @@ props = [json.loads(l) for l in open('/verif/properties.jsonl')]
 # id -> (level, technique, text, note, engine, design_ref)
 CHECKS = {
  'C01': ('exploration', 'bounded-exhaustive program enumeration (grammar families up to a node budget) through the real lexer/parser/compiler/VM against an independent reference interpreter',
-         'Every program of each grammar family up to its node budget is rendered to source, run through the real pipeline and through the reference interpreter internal/refsem; value, error class, ordered print/emit log and final globals must agree. Families: operator chains, control skeletons by node budget, functions, scoping (also inside closures over a function local: F4c), containers/strings incl. unpacking from every container, errors/defer/try, and the composition family F8 (59 expression-bearing contexts x 16 value-preserving wrappers x 14 side-effecting inner expressions). Complete within the families and budgets reported in the evidence file.',
+         'Every program of each grammar family up to its node budget is rendered to source, run through the real pipeline and through the reference interpreter internal/refsem; value, error class, ordered print/emit log and final globals must agree. Families: operator chains, control skeletons by node budget, functions, scoping (also inside closures over a function local: F4c), containers/strings incl. unpacking from every container, errors/defer/try, the composition family F8 (61 expression-bearing contexts x 16 value-preserving wrappers x 14 side-effecting inner expressions), every sequence of 1-3 deferred calls over four callee kinds ended by return / error / return inside a loop or switch, and wide programs (11..101 sibling scopes). Complete within the families and budgets reported in the evidence file.',
          'Trusted: the reference interpreter (DESIGN Appendix A semantics sheet; constructs outside the sheet are not generated or are skipped as outside-sheet). Programs larger than the node budget are not covered.',
          'E1 progen+refsem', '4 C01'),
  'C03': ('exploration', 'bounded-exhaustive enumeration of hostile inputs in crash-isolating worker processes (token sequences, grammar-slot templates, single-token edits, every default callable/method x hostile argument tuples, deep nesting)',
-         'Every token sequence of <= 3 (thorough 4) tokens over a 68-token alphabet (incl. template strings with blank, comment-only and unbalanced interpolations), the full product of 23 statement/expression templates x 2-17 fillers per slot (absent, doubled, wrong kind; each alone and after a prelude defining the names), every single-token deletion/duplication of the function/container/error/closure families, every default-global callable and every builtin-type method name applied to tuples from 22 hostile values (cyclic containers, extreme integers, NaN, invalid UTF-8, closed channel, exhausted iterator, ...), operators and interpolation on all pairs, 17 constructs nested up to 10^3 (thorough 10^6) deep, and (thorough) 870 scripts whose goroutines share a map/set/list (operation pairs x spawn form x ordering, each free-running in a child built with -race; a report through the runtime map routines is the pattern behind fatal concurrent map writes) are pushed through Parse, Program.String, Compile, Eval and the error formatters inside worker children; a child that dies identifies the input in flight.',
+         'Every token sequence of <= 3 (thorough 4) tokens over a 68-token alphabet (incl. template strings with blank, comment-only and unbalanced interpolations), the full product of 24 statement/expression templates x 2-17 fillers per slot (absent, doubled, wrong kind; each alone and after a prelude defining the names), every single-token deletion/duplication and the insertion of a line break (thorough: also of separators and brackets) at every token gap of the function/container/error/closure families, every default-global callable and every builtin-type method name applied to tuples from 22 hostile values (cyclic containers, extreme integers, NaN, invalid UTF-8, closed channel, exhausted iterator, ...), operators and interpolation on all pairs, 17 constructs nested up to 10^3 (thorough 10^6) deep, and (thorough) 870 scripts whose goroutines share a map/set/list (operation pairs x spawn form x ordering, each free-running in a child built with -race; a report through the runtime map routines is the pattern behind fatal concurrent map writes) are pushed through Parse, Program.String, Compile, Eval and the error formatters inside worker children; a child that dies identifies the input in flight.',
          'Trusted: the worker protocol (index announced before each input). exec, network modules and exit are excluded (statement exemptions); memory exhaustion by inputs that carry an extreme size is exempt. Known findings: cyclic containers exhaust the native stack; script goroutines sharing a map or set reach the Go map unsynchronised (thorough).',
          'E5 enum + E7 crashbox', '4 C03'),
  'C04': ('model_checking', 'explicit-state search over (code, ip, stack height) of the compiled bytecode of every generated program, all paths; effect table validated against every instruction the real VM executes',
-         'For every generated program the complete reachable (code, ip, operand-stack height) graph is explored with the invariants one-height-per-ip, no underflow, program ends with exactly its result; the stack-effect table is bound to the implementation by checking every instruction executed by the real VM (step hook) against it; loop skeletons are additionally run at 10 vs >2x/100x stack-capacity iterations against the reference interpreter.',
+         'For every generated program the complete reachable (code, ip, operand-stack height) graph is explored with the invariants one-height-per-ip, no underflow, program ends with exactly its result; the stack-effect table is bound to the implementation by checking every instruction executed by the real VM (step hook) against it; loop skeletons are additionally run at 10 vs >2x/100x stack-capacity iterations against the reference interpreter. The program set includes the composition family F8 (e.g. arbitrary expressions as for-loop post clauses), closures over function locals, defer sequences with returns inside loops and switches, unpacking from every container and wide programs.',
          'Trusted: the effect table in internal/bcflow (validated per run by step-hook conformance), the vm step hook (tag verif). Programs outside the generated families are not covered.',
          'E2 bcflow', '4 C04'),
  'C02': ('exploration', 'bounded-exhaustive enumeration of closure nestings x capture level x call path against a reference interpreter with heap environments',
-         'Every combination of nesting depth 1..3 (thorough 1..5), owning level, per-level in-place/returned call path, read/write access and 11 invocation routes (direct, containers, builtin callbacks, try, call, spawn, fn.spawn, vm.Get+vm.Call from Go) is rendered to source and run on the real pipeline and on the reference interpreter; the escaped closure is invoked twice and a sibling closure over the same binding is read afterwards. Plus the binding family F4c: every placement of up to 3 (thorough 4) operations on a name that is a local of the enclosing function over 7 slots of the inner function.',
+         'Every combination of nesting depth 1..3 (thorough 1..5), owning level, per-level in-place/returned call path, read/write access and 11 invocation routes (direct, containers, builtin callbacks, try, call, spawn, fn.spawn, vm.Get+vm.Call from Go) is rendered to source and run on the real pipeline and on the reference interpreter; the escaped closure is invoked twice and a sibling closure over the same binding is read afterwards. Plus the binding family F4c: every placement of up to 3 (thorough 4) operations on a name that is a local of the enclosing function over 7 slots of the inner function (incl. multi-target assignments to two captured variables), and the family C02multi: the innermost function uses the first parameter of every enclosing level at once (aligned or shifted slots, read/write, every mix of in-place and returned levels).',
          'Trusted: the reference interpreter. The former known finding (capture across a returned frame) has been repaired in the repository; any disagreement is a violation.',
          'E1 progen+refsem', '4 C02'),
  'C05': ('exploration', 'bounded-exhaustive enumeration of Go map iteration orders at every dynamic map-range site (source-to-source seam generated at check time) x corpus programs',
-         'tools/mapseam rewrites all 59 range-over-map sites of the risor packages into a harness-controlled iterator (build overlay; /repo untouched). For every corpus program and every dynamic site it executes, every alternative order of that one site (all permutations for <= 3 keys; reverse, rotations, boundary swaps above) is forced; value, error text, output, MarshalCode bytes and re-marshalled bytes must equal the base order. The corpus includes every deterministic default builtin and every map/set method applied to a 4-key map and set, alone and with tie-making printing callbacks.',
+         'tools/mapseam rewrites all 59 range-over-map sites of the risor packages into a harness-controlled iterator (build overlay; /repo untouched). For every corpus program and every dynamic site it executes, every alternative order of that one site (all permutations for <= 3 keys; reverse, rotations, boundary swaps above) is forced; value, error text, output, MarshalCode bytes and re-marshalled bytes must equal the base order. The corpus includes every deterministic default builtin and every map/set method applied to a 4-key map and set, alone and with tie-making printing callbacks, map literals wrapped over several lines, and maps/sets that change while they are iterated.',
          'Trusted: the go/types-based rewriter finds every range over a map (sites are listed in .work/seam-*/sites.json); dependence on memory addresses and on timing is not covered.',
          'E6 mapseam', '4 C05'),
  'C06': ('model_checking', 'stateless model checking of the implementation: controlled scheduler over the hooked goroutines, every cancellation instant x every schedule up to a deviation bound, promptness counted in VM instructions',
-         'Every combination of child prefix (go/spawn/fn.spawn, looping or blocked, nested to depth 2-3) x main shape (5 loop forms, recursion, 5 blocked operations, 7 callback-carrying builtins) x cancellation instant (every VM instruction of the main task is a scheduling point; the canceller gate opens at point k or when the system is idle) is run under internal/dsched, on a fresh VM and - for the scenarios without children and with a looping go-child - on a reused VM (RunCode after an earlier run with the same context; Call of a function on such a VM); every schedule with at most 1 (thorough 2) deviations of canceller, watcher goroutines, children and main is enumerated. Oracle: Eval returns the context error, at most 3 instructions are dispatched by a VM whose halt flag is set, no blocked operation survives the cancel, and after Eval returned every started task ends within the drain horizon.',
+         'Every combination of child prefix (go/spawn/fn.spawn, looping or blocked, nested to depth 2-3) x main shape (5 loop forms, recursion, 5 blocked operations, 7 callback-carrying builtins) x cancellation instant (every VM instruction of the main task is a scheduling point; the canceller gate opens at point k or when the system is idle) is run under internal/dsched, on a fresh VM and - for the scenarios without children and with a looping go-child - on a reused VM (RunCode after an earlier run with the same context; Call of a function on such a VM; a Call under its own context that waits for a thread started by an earlier run under another context); for main shapes that block also the instant at which the main task has blocked; every schedule with at most 1 (thorough 2) deviations of canceller, watcher goroutines, children and main is enumerated. Oracle: Eval returns the context error, at most 3 instructions are dispatched by a VM whose halt flag is set, no blocked operation survives the cancel, and after Eval returned every started task ends within the drain horizon.',
          'Trusted: the verif hooks cover every blocking operation and goroutine start of the packages involved; a granted operation that was enabled only by a cancelled context and does not return within 45 s (twice) is reported as blocked forever. Real-time latency is not measured.',
          'E3 dsched', '4 C06'),
  'C07': ('model_checking', 'explicit enumeration of API histories on one VM, each explored under the controlled scheduler over all placements of stale context cancellations and watcher stores up to a deviation bound; differential oracle against a fresh VM',
-         'Every history of 1..3 invocations (thorough: larger alphabet, length 4) over RunCode/Call x outcome kinds (normal, runtime error at depth 0/2, recovered Go panic, frame overflow, cancelled mid-run, a Call that fails inside a function after it created a closure) x one stale cancel of an earlier invocation context; the canceller, the watcher goroutines of all runs and the main task are interleaved at VM-instruction granularity within the deviation bound. Each invocation must return the (value, error class, stack depth) it returns on a fresh VM.',
+         'Every history of 1..3 invocations (thorough: larger alphabet, length 4) over RunCode/Call x outcome kinds (normal, runtime error at depth 0/2, recovered Go panic, frame overflow, cancelled mid-run, a Call that fails inside a function after it created a closure, a Call with a Go panic two frames deep, a Call that imports a file module failing half way, a Call that overflows the operand stack) x one stale cancel of an earlier invocation context; the canceller, the watcher goroutines of all runs and the main task are interleaved at VM-instruction granularity within the deviation bound. Each invocation must return the (value, error class, stack depth) it returns on a fresh VM, and a Call must leave the frame pointer where it found it.',
          'Trusted: the expected results are computed by the same harness on fresh VMs. One known finding (Call of a function whose code was replaced by a later RunCode).',
          'E4 histbfs on E3 dsched', '4 C07'),
  'C08': ('exploration', 'bounded-exhaustive enumeration of Go types (reflect-built, depth 2/3) x boundary values x 4 boundary routes with a contents + typed round-trip oracle',
-         'Every Go type from 38 leaf types under 6 constructors to depth 2 (thorough 3), with zero/nil/min/max/ordinary values, crosses the boundary by 4 routes (global, field read, field write, method argument/result) in crash-isolated workers; contents must equal the normalised original, the typed round trip must be DeepEqual, or a clean error; never a panic. Array refill histories: a full list and then a shorter list into the same Go array type (also nested rows) must be rejected or leave the missing positions zero.',
+         'Every Go type from 38 leaf types under 6 constructors to depth 2 (thorough 3), with zero/nil/min/max/ordinary values, crosses the boundary by 4 routes (global, field read, field write, method argument/result) in crash-isolated workers; contents must equal the normalised original, the typed round trip must be DeepEqual, or a clean error; never a panic. Array refill histories: a full list and then a shorter list into the same Go array type (also nested rows) must be rejected or leave the missing positions zero; struct refill histories: a map with an ill-typed field (its keys visited in each of the 6 orders, map seam) and then a one-field map into the same struct type.',
          'Trusted: the normalisation function N and the relaxations listed in DESIGN (nil vs empty, integer width under any). Types beyond depth 3, chan/func/complex are out of scope.',
          'E5 enum + E7 crashbox', '4 C08'),
  'C11': ('model_checking', 'explicit-state graph search: GetAttr closure of every configuration (fixpoint) + every script-level access path evaluated on the real VM; Go map iteration order owned through the map seam',
-         'For every configuration that denies or overrides any single default name (1232 configurations; thorough adds all in-module pairs, 34931) the object graph reachable from the configured globals under GetAttr is explored to a fixpoint and checked for removed objects / missing replacements; 10958 generated script access paths are evaluated per relevant configuration; sequences of configurations are checked for interference. Deny lists of several names (every name x 3 unresolvable spellings in both orders; module+member+outside name in every order; mixed lists of 3, thorough 4, names): risor applies them in Go map order, so the check is built with the map seam (cmd/mapseam overlay) and constructs each configuration once per order - base order plus every single-site deviation at every map range the construction executes (all permutations for <= 4 keys).',
+         'For every configuration that denies or overrides any single default name (1232 configurations; thorough adds all in-module pairs, 34931) the object graph reachable from the configured globals under GetAttr is explored to a fixpoint and checked for removed objects / missing replacements; 10958 generated script access paths are evaluated per relevant configuration; sequences of configurations are checked for interference, also on one VM reused through risor.WithVM (default configuration first, then a module denied / no defaults). Deny lists of several names (every name x 3 unresolvable spellings in both orders; module+member+outside name in every order; mixed lists of 3, thorough 4, names): risor applies them in Go map order, so the check is built with the map seam (cmd/mapseam overlay) and constructs each configuration once per order - base order plus every single-site deviation at every map range the construction executes (all permutations for <= 4 keys).',
          'Trusted: object identity by pointer and (Key, Go function symbol) fingerprint; values obtained by calling builtins are not followed.',
          'E4 graph search', '4 C11'),
  'C15': ('exploration', 'bounded-exhaustive enumeration of all pairs and triples over a 45-value boundary pool and all short lists as sort/set inputs, checked against the algebraic laws',
-         'All 2025 pairs and 91125 triples over the boundary pool through the object API and through real scripts, all lists up to length 3 (thorough 5) over 11 alphabets through sorted/sort/set/in/truthiness, plus all 3^13 lists of length 13 for sort stability; each law of the statement has its own signature.',
+         'All 2025 pairs and 91125 triples over the boundary pool through the object API and through real scripts, all lists up to length 3 (thorough 5) over 11 alphabets through sorted/sort/set/in/truthiness, plus all 3^13 lists of length 13 for sort stability, and long-input families (lists of 14..40 elements incl. floats with signed zeros, where the library changes algorithm); each law of the statement has its own signature.',
          'Trusted: the law checker; cross-type transitivity is not demanded (statement). One known finding (set membership across numeric types).',
          'E5 enum', '4 C15'),
  'C16': ('model_checking', 'explicit-state BFS to a fixpoint over reachable container states (real objects replayed from the shortest history) against a Go slice/map reference model, plus all un-merged operation sequences to depth 2/3',
-         'Reachable states of list, map, set, string and byte_slice under the full operation alphabet with indices in [-len-2, len+2] (map values include nil) are explored to a fixpoint; every (state, operation) step is executed on fresh real objects through the object API (and a stride / all of them through real scripts) and compared with the reference model on result, error and the contents of every live alias.',
+         'Reachable states of list, map, set, string and byte_slice under the full operation alphabet with indices in [-len-2, len+2] (map values include nil) are explored to a fixpoint; quick adds every depth-3 sequence ordered view / other operation / ordered view for maps and sets (what a read leaves behind in the object is invisible to the merged search); every (state, operation) step is executed on fresh real objects through the object API (and a stride / all of them through real scripts) and compared with the reference model on result, error and the contents of every live alias.',
          'Trusted: the reference model in internal/c16/model.go; the state key (contents of all live variables) is complemented by un-merged sequences so hidden state (capacity) cannot hide.',
          'E4 histbfs', '4 C16'),
  'C17': ('exploration', 'bounded-exhaustive differential execution: every corpus program compiled, marshalled, unmarshalled and run side by side with the original',
-         'Every program of the shared corpus (all C01/C02 families plus every constant kind and string escape) is compiled, marshalled twice, compiled again, unmarshalled, re-marshalled, and the original and reloaded code are run on fresh VMs; bytes must be equal at each step and behaviour identical.',
+         'Every program of the shared corpus (all C01/C02 families plus every constant kind and string escape) is compiled, marshalled twice, compiled again, unmarshalled, re-marshalled, and the original and reloaded code are run on fresh VMs; bytes must be equal at each step and behaviour identical; after the run the code object must marshal to the same bytes and load again to the same behaviour. Incremental sessions: every sequence of <= 3 pieces over 11 pieces compiled one after the other by one compiler, the growing code object marshalled and reloaded after each piece.',
          'Trusted: the harness comparison of (stage, error class/message, value text, output log). Programs outside the corpus are not covered.',
          'E1 progen', '4 C17'),
  'C20': ('exploration', 'bounded-exhaustive enumeration of layout variants at every token gap and of single-token edits, against a position-free dump of the real AST and positional sanity of every diagnostic',
-         'For every corpus program: every token gap x permitted insertions, line breaks where the statement allows them, comments at line ends, blank lines, CRLF; the reflection dump of the real AST (positions removed) must equal the original. For diagnostics: every single-token deletion/duplication (each also with CRLF line ends)/substitution and every prefix; each parse/compile error must point inside the source, quote that line verbatim, and render without failing.',
+         'For every corpus program: every token gap x permitted insertions, line breaks where the statement allows them, comments (also two in a row) at line ends, blank lines, CRLF; the reflection dump of the real AST (positions removed) must equal the original. For diagnostics: every single-token deletion/duplication (each also with CRLF line ends)/substitution and every prefix; each parse/compile error must point inside the source, quote that line verbatim, and render without failing.',
          'Trusted: the harness renderer knows the syntactic role of each gap (line breaks are only inserted after commas of list/map/set/argument lists, symbolic binary operators and pipes). Two known findings (positions at end of input).',
          'E5 enum over E1 corpus', '4 C20'),
  'C18': ('model_checking', 'explicit enumeration of all piece histories up to a depth on one compiler + one VM driven as the REPL does, against a reference session model',
-         'Every sequence of 1..4 (thorough 5) pieces over an 18-piece alphabet (definitions, uses, loop, closure, constant; rejected pieces: undefined name, constant assignment, redeclaration, rejected piece with side-effecting prefix, rejected pieces that shadow an earlier global inside a block, syntax error; failing pieces, one mid-piece) is fed to one compiler and one VM exactly as cmd/risor/repl does; per-piece status, value and output and the final globals must equal the reference session model (rejected pieces have no effect, failed pieces keep their effects up to the failure); a 1200-input session must not exhaust the VM.',
+         'Every sequence of 1..3 (thorough 4) pieces over the full piece alphabet and every sequence of 1..4 (thorough 5) pieces over the core pieces joined with each thematic group (constants, output, closures, shadowing, function factories, forward references, name tables, stack overflow) (definitions, uses, loop, closure, constant; rejected pieces: undefined name, constant assignment, redeclaration, rejected piece with side-effecting prefix, rejected pieces that shadow an earlier global inside a block, syntax error; failing pieces, one mid-piece) is fed to one compiler and one VM exactly as cmd/risor/repl does; per-piece status, value and output and the final globals must equal the reference session model (rejected pieces have no effect, failed pieces keep their effects up to the failure); a 1200-input session must not exhaust the VM.',
          'Trusted: the session model in internal/refsem (Session). The value of a piece that ends in a named function definition is not compared.',
          'E4 histbfs + E1 refsem', '4 C18'),
  'C19': ('exploration', 'bounded-exhaustive enumeration of argument tuples over boundary pools for every discovered wrapper function, compared with the direct Go call; codec round trips and all short malformed inputs',
@@ -68,23 +68,23 @@ CHECKS = {
          'Trusted: the table of Go closures in internal/c19/table.go. Four known findings (json codec vs module on byte_slice and nil; invalid UTF-8 through encoding/json).',
          'E5 enum', '4 C19'),
  'C09': ('model_checking', 'stateless model checking of the implementation: 2-3 concurrent evaluations under the controlled scheduler, every schedule of the lock/access hook points up to a preemption bound, vector-clock happens-before race detection',
-         'Scenarios of 2-3 concurrent risor.Eval calls on separate VMs (distinct receivers and arguments per evaluation, so that shared scratch state shows in the results) that meet on one piece of package-level or shared state (Go type registries through globals, field access and proxy method calls; the codec registry incl. registration; a shared importer; one compiled code object on two VMs; two clones of one VM). Package caches are reset before every execution; every schedule with at most 2 (thorough 3) preemptions is explored; a vector-clock detector reports conflicting hooked accesses that are not ordered by locks/spawn/join, and every result must equal the sequential result. Thorough adds a free-running -race build of the same bodies.',
+         'Scenarios of 2-3 concurrent risor.Eval calls on separate VMs (distinct receivers and arguments per evaluation, so that shared scratch state shows in the results; values of different dynamic types through any-typed positions; edits of a Go type's attribute map) that meet on one piece of package-level or shared state (Go type registries through globals, field access and proxy method calls; the codec registry incl. registration; a shared importer; one compiled code object on two VMs; two clones of one VM). Package caches are reset before every execution; every schedule with at most 2 (thorough 3) preemptions is explored; a vector-clock detector reports conflicting hooked accesses that are not ordered by locks/spawn/join, and every result must equal the sequential result. The same bodies also run free in a build with the Go race detector (quick 6 rounds, thorough 40).',
          'Trusted: the access hooks name every package-level map and cache of the anchored files (typeConverters, goTypeRegistry, GoType.converter, codecs, importer code caches); accesses the hooks do not name are only covered by the -race supplement.',
          'E3 dsched', '4 C09'),
  'C10': ('model_checking', 'stateless model checking of the implementation: controlled scheduler over the hooked goroutines, DFS over all schedules up to a preemption bound, happens-before race detection on hooked accesses',
-         'Each producer/consumer scenario (senders x receivers x buffer x messages x 4 receive forms x 3 spawn forms) is run as real risor evaluations under the controlled scheduler internal/dsched; every schedule with at most 2 preemptions is enumerated - including, for every send or receive that cannot complete on arrival, the alternative that the task enters the real operation and blocks inside it until a later send, receive or close wakes it (the scheduler reads the wait queue of the Go channel to know it is blocked), so the blocked-then-woken paths of the implementation run too - and every complete execution is judged: received multiset == sent multiset, per-sender order per receiver, wait() values, nil after close, no deadlock, no leftover task, no unordered access to the channel fields.',
+         'Each producer/consumer scenario (senders x receivers x buffer x messages x 4 receive forms x 3 spawn forms; spawn-argument scenarios incl. the spawn method as a callback of each/map and a wide helper that spawns closures over its locals) is run as real risor evaluations under the controlled scheduler internal/dsched; every schedule with at most 2 preemptions is enumerated - including, for every send or receive that cannot complete on arrival, the alternative that the task enters the real operation and blocks inside it until a later send, receive or close wakes it (the scheduler reads the wait queue of the Go channel to know it is blocked), so the blocked-then-woken paths of the implementation run too - and every complete execution is judged: received multiset == sent multiset, per-sender order per receiver, wait() values, nil after close, no deadlock, no leftover task, no unordered access to the channel fields.',
          'Trusted: the scheduler owns every blocking operation through the verif hooks (channel send/receive/close, thread wait, spawn/start/end, context wait, halt store); instruction-level interleavings inside one VM step and memory-model effects below hook granularity are not modelled. 10^4-message runs are out of reach (DESIGN section 5).',
          'E3 dsched', '4 C10'),
  'C14': ('model_checking', 'explicit-state BFS over import-statement histories against a reference model, plus bounded-exhaustive enumeration of import path texts x spellings x importers with sentinels outside the root',
-         'Part A: every path text of <= 3 (thorough 4) segments over a hostile segment alphabet x 16 import spellings x 3 importers (recording fs.FS, naive joining fs.FS, local importer on a real tree) with sentinel modules planted at every reachable outside location. Part B: every sequence of <= 3 (thorough 4) import statements over a 19-letter alphabet (incl. one name under two aliases and two file modules in one from-import) on a module tree with shared names, a diamond and a failing module; each sequence is executed on the real implementation with both importers and every probe is compared with a reference model (module bodies run exactly once, aliases share state, globals are separate).',
+         'Part A: every path text of <= 3 (thorough 4) segments over a hostile segment alphabet x 16 import spellings x 3 importers (recording fs.FS, naive joining fs.FS, local importer on a real tree) with sentinel modules planted at every reachable outside location. Part B: every sequence of <= 3 (thorough 4) import statements over a 24-letter alphabet (incl. one name under two aliases, two file modules in one from-import, byte-identical twin modules) on a module tree with shared names, a diamond and a failing module; each sequence is executed on the real implementation with both importers and additionally statement by statement on one compiler and one VM (the REPL way) and every probe is compared with a reference model (module bodies run exactly once, aliases share state, globals are separate).',
          'Trusted: the reference model of module state in internal/c14; import cycles are not generated.',
          'E4 histbfs + E5 enum', '4 C14'),
  'C12': ('exploration', 'bounded-exhaustive enumeration of every OS-touching function/method (discovered from the live modules) x argument tuples x execution contexts x ways of supplying the OS, against a recording OS; real-process effects checked after every case',
-         'Every function of the os, filepath and fmt modules, the OS-touching builtins and every file-object method (80 discovered names; an unknown name is an engine error) x 168 argument tuples whose paths and variable names carry a marker x 12 execution contexts (thorough 252: spawn, go, clone, imported module, callbacks, risor.Call, composed chains) x OS supplied by option / context / both; plus 81 reused-VM contexts (OS of the first run x the source of the OS of the second run x entry form RunCode/Eval/Call on the same VM and context). Oracle: the recording OS logged exactly the expected calls and the script saw its answers; cwd, environment, temp dir, / and real stdio of the worker are untouched; a static scan of the anchored files finds no direct os/syscall use; thorough: no syscall argument under strace carries the marker.',
+         'Every function of the os, filepath and fmt modules, the OS-touching builtins and every file-object method (80 discovered names; an unknown name is an engine error) x 168 argument tuples whose paths and variable names carry a marker x 12 execution contexts (thorough 252: spawn, go, clone, imported module, callbacks, risor.Call, composed chains) x OS supplied by option / context / both; plus 81 reused-VM contexts (OS of the first run x the source of the OS of the second run - option, context, or none at all - x entry form RunCode/Eval/Call on the same VM and context). Oracle: the recording OS logged exactly the expected calls and the script saw its answers; cwd, environment, temp dir, / and real stdio of the worker are untouched; a static scan of the anchored files finds no direct os/syscall use; thorough: no syscall argument under strace carries the marker.',
          'Trusted: the call templates (expected OS-call logs) in internal/c12/cases.go. exec, network modules and the importer\'s own file reads are exempt by the statement; os.exit(non-zero) inside go-statement contexts is excluded (it would block the harness).',
          'E5 enum + E7 crashbox', '4 C12'),
  'C13': ('exploration', 'bounded-exhaustive enumeration of path strings x operations x layouts against a component-wise containment oracle',
-         'Every path string over the 7-segment alphabet up to 5 (quick) / 6 (thorough) segments, absolute/relative, with/without trailing separator, is pushed through os.ResolvePath, through every localfs operation on a real temp tree with sentinels outside the base, and through every VirtualOS operation over 7 mount tables x 4 working directories with recording filesystems; the oracle is an independent component-wise prefix computation. Part D: every history of <= 3 (thorough 4) steps over Stat/Remove/Rename on relative and absolute paths and Chdir on one VirtualOS per mount table, each step judged against the working directory of that moment. Complete within the stated alphabet and length.',
+         'Every path string over the 7-segment alphabet up to 5 (quick) / 6 (thorough) segments, absolute/relative, with/without trailing separator, is pushed through os.ResolvePath, through every localfs operation on a real temp tree with sentinels outside the base, and through every VirtualOS operation over 7 mount tables x 4 working directories with recording filesystems; the oracle is an independent component-wise prefix computation. Part D: every history of <= 3 (thorough 4) steps over Stat/Remove/Rename on relative and absolute paths and Chdir on one VirtualOS per mount table, each step judged against the working directory of that moment. Part E: every history of <= 3 steps over symlink creation at three depths, renames that move links and directories to other depths, and reads/writes through the links on one based localfs on a real tree. Complete within the stated alphabet and length.',
          'Trusted: the oracle in internal/c13 (filepath.Clean + component-wise prefix); effects observed on a real tmpfs tree. Not covered: segments outside the alphabet, host-planted symlinks.',
          'E5 enum', '4 C13'),
 }
